@@ -9,6 +9,7 @@ import (
 
 // FaultPlan counts operations per kind and fails the planned one.
 type FaultPlan struct {
+	Wrap    error // injected errors wrap this (nil: plain errors)
 	mu      sync.Mutex
 	counts  map[string]int
 	failAt  map[string]int    // kind -> 1-based occurrence to fail
@@ -23,9 +24,18 @@ func NewFaultPlan() *FaultPlan {
 	return &FaultPlan{counts: map[string]int{}, failAt: map[string]int{}, fired: map[string]bool{}}
 }
 
-type injectedError struct{ kind string }
+type injectedError struct {
+	kind string
+	wrap error // what a transport's own failure may wrap: e.g. context.DeadlineExceeded of a per-read timeout
+}
 
-func (e *injectedError) Error() string { return "injected fault at " + e.kind }
+func (e *injectedError) Error() string {
+	if e.wrap != nil {
+		return "injected fault at " + e.kind + ": " + e.wrap.Error()
+	}
+	return "injected fault at " + e.kind
+}
+func (e *injectedError) Unwrap() error { return e.wrap }
 
 func (p *FaultPlan) FailAt(kind string, n int) { p.mu.Lock(); p.failAt[kind] = n; p.mu.Unlock() }
 
@@ -62,7 +72,7 @@ func (p *FaultPlan) hit(kind string) error {
 		if cb != nil {
 			cb(kind)
 		}
-		return &injectedError{kind}
+		return &injectedError{kind, p.Wrap}
 	}
 	return nil
 }
